@@ -54,7 +54,10 @@ type c03Hist struct {
 		Name string `json:"name"`
 		Doc  any    `json:"doc"`
 	} `json:"prior"`
+	Frag any `json:"frag"` // kind-level entries ("kind", "wrap"): the bare object under test
 }
+
+func (h *c03Hist) isKindLevel() bool { return h != nil && (h.Entry == "kind" || h.Entry == "wrap") }
 
 func (h *c03Hist) isHistory() bool { return h != nil && h.Entry != "" && h.Entry != "fresh" }
 
@@ -70,7 +73,15 @@ func (h *c03Hist) echo() any {
 		}
 		prior = append(prior, T{"name": p.Name, "doc": in})
 	}
-	return T{"entry": h.Entry, "prior": prior}
+	res := T{"entry": h.Entry, "prior": prior}
+	if h.Frag != nil {
+		in, ok := c03Project([]byte(c03Text(h.Frag)))
+		if !ok {
+			panic("harness: cannot project own object")
+		}
+		res["frag"] = in
+	}
+	return res
 }
 
 // c03Table renders the case's external resources as JSON text, keyed by resource name.
@@ -125,7 +136,10 @@ func c03Run(c *Case) []any {
 		panic("harness: cannot project own input " + text)
 	}
 	line["in"] = in
-	if tc.Hist.isHistory() {
+	if tc.Hist.isKindLevel() {
+		kind, _ := tc.D.(map[string]any)["kind"].(string)
+		line["obs"] = c03KindHistory(ver, kind, []byte(text), c03Table(tc.Ext), tc.Hist)
+	} else if tc.Hist.isHistory() {
 		line["obs"] = c03History(ver, []byte(text), c03Table(tc.Ext), tc.Hist)
 	} else if ver == 3 {
 		line["obs"] = c03Trips3([]byte(text), c03Table(tc.Ext))
@@ -455,6 +469,178 @@ func c03Trips2(text []byte) any {
 // Entries: json / yaml / meth (UnmarshalJSON) / alt (json, yaml, json ... in turn) fill one T value;
 // loader / lpath (OpenAPI 3) use one Loader (LoadFromData; LoadFromDataWithPath with a new location each time).
 
+// c03NewKind: a new zero value (as a pointer) of the Go type of an object kind of spec/DocModel.tla, or of its
+// reference wrapper type.
+func c03NewKind(kind string, wrap bool) any {
+	if wrap {
+		switch kind {
+		case "Schema":
+			return new(openapi3.SchemaRef)
+		case "Response":
+			return new(openapi3.ResponseRef)
+		case "Parameter":
+			return new(openapi3.ParameterRef)
+		case "Example":
+			return new(openapi3.ExampleRef)
+		case "RequestBody":
+			return new(openapi3.RequestBodyRef)
+		case "Header":
+			return new(openapi3.HeaderRef)
+		case "SecurityScheme":
+			return new(openapi3.SecuritySchemeRef)
+		case "Link":
+			return new(openapi3.LinkRef)
+		case "Callback":
+			return new(openapi3.CallbackRef)
+		case "Schema2":
+			return new(openapi2.SchemaRef)
+		}
+		return nil
+	}
+	switch kind {
+	case "T3":
+		return new(openapi3.T)
+	case "Info", "Info2":
+		return new(openapi3.Info)
+	case "Contact":
+		return new(openapi3.Contact)
+	case "License":
+		return new(openapi3.License)
+	case "Server":
+		return new(openapi3.Server)
+	case "ServerVariable":
+		return new(openapi3.ServerVariable)
+	case "Components":
+		return new(openapi3.Components)
+	case "Paths":
+		return new(openapi3.Paths)
+	case "PathItem":
+		return new(openapi3.PathItem)
+	case "Operation":
+		return new(openapi3.Operation)
+	case "ExternalDocs":
+		return new(openapi3.ExternalDocs)
+	case "Parameter":
+		return new(openapi3.Parameter)
+	case "Header":
+		return new(openapi3.Header)
+	case "RequestBody":
+		return new(openapi3.RequestBody)
+	case "MediaType":
+		return new(openapi3.MediaType)
+	case "Encoding":
+		return new(openapi3.Encoding)
+	case "Responses":
+		return new(openapi3.Responses)
+	case "Response":
+		return new(openapi3.Response)
+	case "Callback":
+		return new(openapi3.Callback)
+	case "Example":
+		return new(openapi3.Example)
+	case "Link":
+		return new(openapi3.Link)
+	case "Tag":
+		return new(openapi3.Tag)
+	case "Schema":
+		return new(openapi3.Schema)
+	case "Discriminator":
+		return new(openapi3.Discriminator)
+	case "XML":
+		return new(openapi3.XML)
+	case "SecurityScheme":
+		return new(openapi3.SecurityScheme)
+	case "OAuthFlows":
+		return new(openapi3.OAuthFlows)
+	case "OAuthFlow":
+		return new(openapi3.OAuthFlow)
+	case "SecurityRequirement":
+		return new(openapi3.SecurityRequirement)
+	case "T2":
+		return new(openapi2.T)
+	case "PathItem2":
+		return new(openapi2.PathItem)
+	case "Operation2":
+		return new(openapi2.Operation)
+	case "Parameter2":
+		return new(openapi2.Parameter)
+	case "Response2":
+		return new(openapi2.Response)
+	case "Header2":
+		return new(openapi2.Header)
+	case "Items2", "Schema2":
+		return new(openapi2.Schema)
+	case "SecurityScheme2":
+		return new(openapi2.SecurityScheme)
+	}
+	return nil
+}
+
+// Kind-level history lines: a value of the kind's own type (entry "kind") or of its reference wrapper type (entry
+// "wrap") takes the prior objects and then the bare object under test, all through json.Unmarshal.
+//   j1  the hosting document through the canonical reader (as on every line)
+//   k1  the bare object into a fresh value, then json.Marshal
+//   pr  per prior object: did it parse
+//   jh  JSON of the ONE value after the last parse
+func c03KindHistory(ver int, kind string, text []byte, table map[string][]byte, h *c03Hist) any {
+	obs := c03History(ver, text, table, &c03Hist{Entry: "none"}).(T) // j1 only
+	delete(obs, "jh")
+	delete(obs, "pr")
+	msgs := T{}
+	if m, ok := obs["msgs"].(T); ok {
+		msgs = m
+	}
+	step := func(name string, f func(stage *string) ([]byte, error)) {
+		obs[name] = c03Trip(func(stage *string) []byte {
+			b, err := f(stage)
+			if err != nil {
+				msgs[name] = c03Clip(err.Error())
+				return nil
+			}
+			return b
+		})
+	}
+	wrap := h.Entry == "wrap"
+	frag := []byte(c03Text(h.Frag))
+	step("k1", func(stage *string) ([]byte, error) {
+		*stage = "load"
+		v := c03NewKind(kind, wrap)
+		if v == nil {
+			return nil, fmt.Errorf("harness: no Go type for kind %q", kind)
+		}
+		if err := json.Unmarshal(frag, v); err != nil {
+			return nil, err
+		}
+		*stage = "marshal"
+		return json.Marshal(v)
+	})
+	pr := []any{}
+	step("jh", func(stage *string) ([]byte, error) {
+		*stage = "prior"
+		v := c03NewKind(kind, wrap)
+		if v == nil {
+			return nil, fmt.Errorf("harness: no Go type for kind %q", kind)
+		}
+		for _, p := range h.Prior {
+			pr = append(pr, json.Unmarshal([]byte(c03Text(p.Doc)), v) == nil)
+		}
+		*stage = "load"
+		if err := json.Unmarshal(frag, v); err != nil {
+			return nil, err
+		}
+		*stage = "marshal"
+		return json.Marshal(v)
+	})
+	for len(pr) < len(h.Prior) {
+		pr = append(pr, false)
+	}
+	obs["pr"] = pr
+	if len(msgs) != 0 {
+		obs["msgs"] = msgs
+	}
+	return obs
+}
+
 func c03History(ver int, text []byte, table map[string][]byte, h *c03Hist) any {
 	obs := T{}
 	msgs := T{}
@@ -530,6 +716,9 @@ func c03History(ver int, text []byte, table map[string][]byte, h *c03Hist) any {
 		last = func() ([]byte, error) { return json.Marshal(&d) }
 	}
 	pr := []any{}
+	if h.Entry == "none" { // the canonical trip only (kind-level lines)
+		return obs
+	}
 	step("jh", func(stage *string) ([]byte, error) {
 		*stage = "prior"
 		for i, p := range h.Prior {
